@@ -153,7 +153,11 @@ let conc file =
          let sp = String.index line ' ' in
          let name = String.sub line 1 (sp - 1) in
          let rest = String.sub line sp (String.length line - sp) in
-         (match Str.bounded_split (Str.regexp_string "=>") rest 2 with
+         let pieces =
+           match Str.bounded_split_delim (Str.regexp_string "=>") rest 2 with
+           | [a] -> [a]
+           | l -> l in
+         (match pieces with
           | [a; r] ->
             let f = try Hashtbl.find listfuns name with Not_found -> failwith ("unknown list function " ^ name) in
             let got = List.map z_of_coq (f (List.map coq_of_z (ints_of a))) in
@@ -226,7 +230,8 @@ let () =
   Hashtbl.replace replays "list" list_replay;
   Hashtbl.replace replays "cell" cell_replay;
   Hashtbl.replace listfuns "traits_rc" traits_line;
-  Hashtbl.replace listfuns "traits_snap" traits_line
+  Hashtbl.replace listfuns "traits_snap" traits_line;
+  Hashtbl.replace listfuns "chain" chain_line
 
 (* evaluate the executable count invariant (RcCheck.rc_invcheck) after every step of every rc case *)
 let inv file =
